@@ -50,6 +50,8 @@ CHECKS = {
             dict(name="submount", run="^TestSubMount$", quick=100, thorough=600, shards=2),
             dict(name="stale-mem", run="^TestStaleMem$", quick=400, thorough=4000, shards=2),
             dict(name="stale-kvplain", run="^TestStaleKVPlain$", quick=300, thorough=3000, shards=2),
+            dict(name="dirpage-mem", run="^TestDirPageMem$", quick=300, thorough=3000, shards=2),
+            dict(name="dirpage-kvplain", run="^TestDirPageKVPlain$", quick=200, thorough=2000, shards=2),
         ],
     ),
     "C05": dict(
